@@ -529,6 +529,35 @@ func runProj(dir string, seed int64, n int) {
 			if fuErr != firstErr || (!fuErr && len(first) == 1 && (len(fu) != 1 || !sameBytes(fu[0], first[0]))) {
 				finding("driver", "FindOneAndUpdate with projection returns a different document than Find", args)
 			}
+			// the post-image of an upsert is projected like any other returned document (and an ill-formed projection
+			// is rejected there as well)
+			if i%3 == 0 {
+				for _, how := range []string{"update", "replace"} {
+					coll.Drop(ctx)
+					body := stripID(doc)
+					var up []bson.D
+					var upErr bool
+					if how == "update" {
+						if len(body) == 0 {
+							continue
+						}
+						up, upErr = single(coll.FindOneAndUpdate(ctx, bson.D{{Key: "_id", Value: int32(777)}}, bson.D{{Key: "$set", Value: body}},
+							options.FindOneAndUpdate().SetUpsert(true).SetReturnDocument(options.After).SetProjection(proj)))
+					} else {
+						up, upErr = single(coll.FindOneAndReplace(ctx, bson.D{{Key: "_id", Value: int32(777)}}, body,
+							options.FindOneAndReplace().SetUpsert(true).SetReturnDocument(options.After).SetProjection(proj)))
+					}
+					stored, _ := cursorDocs(coll.Find(ctx, bson.D{}))
+					if upErr != firstErr {
+						finding("driver", "an upserting FindOneAnd"+how+" and Find disagree on rejecting the projection", args)
+					} else if !upErr && len(stored) == 1 {
+						want, werr := mongokit.Project(bsonkit.Clone(&stored[0]), bsonkit.Clone(&proj))
+						if werr != nil || len(up) != 1 || !sameBytes(up[0], *want) {
+							finding("driver", "the post-image returned by an upserting FindOneAnd"+how+" is not the projection of the upserted document", args)
+						}
+					}
+				}
+			}
 		})
 	}
 }
